@@ -241,7 +241,7 @@ func absentQueries(sb *zap.SegmentBase) string {
 func init() { register("C02", checkC02) }
 
 func checkC02(c *ctx) {
-	c.Rule = "the C01 batch generator with stored fields (repeated names, empty values, occasional >64KB values, array positions up to 40 entries); observed: Count, Fields (as a set), every VisitStoredFields with visitors stopping after every prefix length, DocID, DocNumbers on id lists with present / absent / duplicate / greater-than-every-key ids, visits at and beyond Count; expected = extracted spec_of_batch (+ its stored-visit prefix function); non-trivial = >= 2 docs with >= 1 stored non-_id value"
+	c.Rule = "the C01 batch generator with stored fields (repeated names, empty values, occasional >64KB values, array positions up to 40 entries, _id lengths at the varint boundaries 127..5000 bytes); observed: Count, Fields (as a set), every VisitStoredFields with visitors stopping after every prefix length, DocID, DocNumbers on id lists with present / absent / duplicate / greater-than-every-key ids, visits at and beyond Count; expected = extracted spec_of_batch (+ its stored-visit prefix function); non-trivial = >= 2 docs with >= 1 stored non-_id value"
 	c.Assumptions = append(c.Assumptions, "input domain W1 (exactly one stored _id per document)")
 	n := c.n(260, 5000)
 	parts := []int{pNDocs, pFields, pStored}
@@ -249,6 +249,7 @@ func checkC02(c *ctx) {
 		o := zh.RandOpts(c.R, c.R.Intn(12), "d")
 		o.BigVals = c.R.Chance(12)
 		o.LongAP = c.R.Chance(3)
+		o.LongIDs = c.R.Chance(4)
 		b := zh.GenBatch(c.R, o)
 		mode := randMode(c)
 		sb, obs, spec, err := buildObs(c, b, mode)
@@ -265,6 +266,9 @@ func checkC02(c *ctx) {
 		c.CountN("stored_values", stored)
 		if o.BigVals {
 			c.Count("batches_with_big_values")
+		}
+		if o.LongIDs {
+			c.Count("batches_with_long_ids")
 		}
 		if i == 2 {
 			c.Sample(map[string]interface{}{"mode": mode, "batch": clip(b.Sx().Pretty())})
